@@ -235,10 +235,57 @@ def r3_position_nodes(ctx: Ctx) -> None:
     ra_facts = assign_facts(sp, "self.reloc_address")
     ctx.check(ra_facts == {(addr_expr, frozenset())}, "Resolver.set_position:run-address",
               f"the run address always becomes the bus address of the argument; found: {show(ra_facts)}")
+    _statement_routing(ctx)
     gb = repo.func(SYMBOLS, "Resolver.get_bus")
     gf = return_facts(gb)
     want = {("self.bus", frozenset({("self.bus.has_mappings()", True)})), ("BUS_MAPPING[self.rom_type]", frozenset({("self.bus.has_mappings()", False)}))}
     ctx.check(gf == want, "Resolver.get_bus", f"the active mapping is the user bus when it has mappings, else BUS_MAPPING[rom_type]; found: {show(gf)}")
+
+
+def _statement_routing(ctx: Ctx) -> None:
+    """`*=` starts a new output block (Program.emit flushes on CodePositionNode), `@=` only changes the run address: the statement token
+    must reach the node class of its own kind -- parser arm -> AST class -> kind string -> generators entry -> node constructed"""
+    from ..const import NameRef, module_const
+    from ..core import const_str
+
+    repo = ctx.repo
+    gens = module_const(repo, "a816.parse.codegen", "generators")
+    if not isinstance(gens, dict):
+        raise AnalysisError("generators is not a dict literal")
+    arms: dict[str, str] = {}
+    for fi in repo.module("a816.parse.parser_states").functions.values():
+        for n in walk_no_nested(fi.node):
+            if isinstance(n, ast.If) and isinstance(n.test, ast.Call) and call_name(n.test) == "accept_token" and len(n.test.args) == 2:
+                tok = (dotted(n.test.args[1]) or "").split(".")[-1]
+                if tok in ("STAR_EQ", "AT_EQ"):
+                    if not (len(n.body) == 1 and isinstance(n.body[0], ast.Return) and isinstance(n.body[0].value, ast.Call)):
+                        raise AnalysisError(f"{fi.where}: arm for {tok} is not a single `return parse_...(p)`")
+                    if tok in arms:
+                        raise AnalysisError(f"two parser arms test {tok}")
+                    arms[tok] = call_name(n.body[0].value) or ""
+    for tok, sign, want_cls in (("STAR_EQ", "*=", "CodePositionNode"), ("AT_EQ", "@=", "RelocationAddressNode")):
+        if tok not in arms:
+            raise AnalysisError(f"anchor missing: parser arm for TokenType.{tok}")
+        ctx.count("position_statement_routes")
+        pf = repo.func("a816.parse.parser_states", arms[tok])
+        from ..match import returns_of
+
+        built = {call_name(r.value) for r in returns_of(pf.node) if isinstance(r.value, ast.Call)}
+        if len(built) != 1 or len(returns_of(pf.node)) != 1:
+            raise AnalysisError(f"{pf.where}: expected one `return <AstNode>(...)`")
+        ast_cls = repo.cls("a816.parse.ast.nodes", built.pop() or "")
+        sup = [c for c in calls_in(ast_cls.methods["__init__"].node) if call_name(c) == "super().__init__"]
+        kind = const_str(sup[0].args[0]) if sup and sup[0].args else None
+        g = gens.get(kind) if kind is not None else None
+        if not isinstance(g, NameRef):
+            raise AnalysisError(f"`{sign}`: kind string of {ast_cls.name} / generators entry not found")
+        gf_ = repo.func("a816.parse.codegen", g.name)
+        classes = [call_name(c) for c in calls_in(gf_.node) if (call_name(c) or "").endswith("Node") and call_name(c) != "ExpressionNode"]
+        if len(classes) != 1:
+            raise AnalysisError(f"{gf_.where}: expected exactly one node construction, found {classes}")
+        ctx.check(classes[0] == want_cls, f"`{sign}`:node-class",
+                  f"`{sign}` is parsed by {pf.name} into {ast_cls.name} (kind {kind!r}); generators[{kind!r}] = {g.name} builds {classes[0]}, "
+                  f"and Program.emit starts a new block exactly on CodePositionNode: `{sign}` needs {want_cls}", fact=True)
 
 
 def r4_writers_place_blocks(ctx: Ctx) -> None:
